@@ -161,8 +161,20 @@ impl Prop for C20 {
             4 => any::<u16>().prop_map(Mode::Prefix),
             1 => (1u16..40).prop_map(|stride| Mode::Cuts { limit: 2048, stride }),
         ];
-        (proptest::sample::select(vec![Container::Ctpk, Container::Bch, Container::Cgfx, Container::Tpl]), proptest::collection::vec(tex, 0..=6), prop_oneof![1 => Just(0u64), 3 => any::<u64>()], mode)
-            .prop_map(|(container, texs, placement, mode)| Case { container, texs, placement, mode })
+        // one container in five holds "sibling" textures: every texture shares the first one's dimensions and payload seed, so textures of formats
+        // with equal bits per pixel carry byte-identical payloads (each must still be decoded in its own format)
+        (proptest::sample::select(vec![Container::Ctpk, Container::Bch, Container::Cgfx, Container::Tpl]), proptest::collection::vec(tex, 0..=6), prop_oneof![1 => Just(0u64), 3 => any::<u64>()], mode, 0u8..5)
+            .prop_map(|(container, mut texs, placement, mode, sib)| {
+                if sib == 0 && texs.len() >= 2 {
+                    let (w, h, seed) = (texs[0].w, texs[0].h, texs[0].seed);
+                    for t in texs.iter_mut().skip(1) {
+                        t.w = w;
+                        t.h = h;
+                        t.seed = seed;
+                    }
+                }
+                Case { container, texs, placement, mode }
+            })
             .boxed()
     }
     fn enumerate(tier: Tier, shard: u64, nshards: u64, f: &mut dyn FnMut(Case) -> bool) {
@@ -350,6 +362,7 @@ impl Prop for C20 {
         });
         cx.label_if(case.placement != 0, "non-default-placement");
         cx.label_if(n == 0, "no-textures");
+        cx.label_if(texs.iter().enumerate().any(|(i, t)| texs[..i].iter().any(|u| u.fmt != t.fmt && u.w == t.w && u.h == t.h && u.payload == t.payload)), "identical-payloads-in-different-formats");
         cx.label_if(texs.iter().any(|t| t.w >= 512 || t.h >= 512), "side>=512");
         cx.label_if(texs.iter().any(|t| t.w == 1024 || t.h == 1024), "side=1024");
         cx.label_if(texs.iter().any(|t| t.name.len() >= 260), "name>=260-bytes");
